@@ -26,12 +26,17 @@ class StageWorld(object):
 
 
 def build(e, stack, enc_tables, mode='alias', tempdir=None,
-          table_factory=None, tables=None):
+          table_factory=None, tables=None, wrap_sources=False):
     """-> (world, views).  stack = [[name, variant], ...]; the first entry is
     the base recipe fed from the sources, the others are unary recipes."""
     if tables is None:
         tables = [dec_table(t) for t in enc_tables]
     w = World(tables, mode=mode, tempdir=tempdir, table_factory=table_factory)
+    if wrap_sources:
+        # the sources reach the recipe as petl Table objects (as in the
+        # fluent style: etl.wrap(src).op(...)), not as bare containers
+        w.raw = list(w.s)
+        w.s = [e.wrap(s) for s in w.s]
     name, var = stack[0]
     rec = RECIPES[name]
     v = rec.variants[var % len(rec.variants)](e, w)
@@ -50,18 +55,20 @@ def is_items(stack):
 
 
 def solo_reference(e, stack, enc_tables, mode='alias', tempdir=None,
-                   limit=5000):
+                   limit=5000, wrap_sources=False):
     """Canonical sequences of a solo pass over each view of a freshly built
     identical pipeline (one fresh build per view).  Raises whatever the
     pipeline raises."""
     canon = canon_cell if is_items(stack) else canon_row
     out = []
-    w, views = build(e, stack, enc_tables, mode, tempdir)
+    w, views = build(e, stack, enc_tables, mode, tempdir,
+                     wrap_sources=wrap_sources)
     n = len(views)
     w.close()
     del views
     for vi in range(n):
-        w, views = build(e, stack, enc_tables, mode, tempdir)
+        w, views = build(e, stack, enc_tables, mode, tempdir,
+                         wrap_sources=wrap_sources)
         try:
             rows = []
             for r in views[vi]:
